@@ -97,7 +97,8 @@ def run(chk):
             kw = rest[0][1]
             nan = kw.get("nan")
             okn = nan is None or (isinstance(nan, ast.Constant) and nan.value in (0, 0.0))
-            extra = [k for k in kw if k not in ("nan",)]
+            # posinf=None / neginf=None are the defaults spelled out (infinities map to the extremes of the dtype, then the clamp saturates them)
+            extra = [k for k in kw if k not in ("nan",) and not (k in ("posinf", "neginf") and isinstance(kw[k], ast.Constant) and kw[k].value is None)]
             if not okn or extra:
                 bad("sanitiser arguments", f"nan_to_num({ {k: U(v) for k, v in kw.items()} }) is not the identity on finite quotients followed by NaN -> 0", "infinite or NaN quotients mapped to a non-zero code")
             rest = rest[1:]
@@ -158,7 +159,8 @@ def run(chk):
         n4 += 1
         facts = path_facts(p)
         fp = facts.get(f"{t}.qtype.is_floating_point")
-        e = U(p.end[1])
+        from ..core import strip_noop_calls
+        e = U(strip_noop_calls(p.end[1]))  # layout / device / graph-membership calls do not change the values of the product
         site = f"{dq.mod.rel}:{p.end[2]}"
         want_f = (f"{t}._scale * {t}._data.to({t}._scale.dtype)", f"{t}._data.to({t}._scale.dtype) * {t}._scale")
         want_i = (f"{t}._scale * {t}._data", f"{t}._data * {t}._scale")
